@@ -106,6 +106,12 @@ def r3(rep, prog):
               "query-grammar matches %s with nom `tag`: the white space after the keyword is a literal U+0020, so the same keyword followed by a tab or a newline (a query typed on two lines) is not the operator — "
               "the strict parser rejects `a AND\\tb`, the lenient one silently searches `AND` / `NOT` as a word (`(*a *AND *b)`), and strict and lenient disagree on `NOT\\ta`" % sorted({repr(k[2]) for k in KW}),
               site=site(prog.bodies[KW[0][0]], KW[0][1]) if KW else "")
+    # a field name ends at any white space: its character classes test char::is_whitespace, not a list with a blank in it
+    fnb = [n for n in prog.bodies if n == "tantivy_query_grammar::query_grammar::field_name" or n.startswith("tantivy_query_grammar::query_grammar::field_name::{closure")]
+    fn_uni = any(uni.search(t.get("f") or "") for n in fnb for _, t in prog.bodies[n].calls())
+    rep.check(bool(fnb) and fn_uni, R, "field_name stops at every white space", "its character classes test char::is_whitespace",
+              "query_grammar::field_name decides which characters belong to a field name with a fixed list (SPECIAL_CHARS, whose only white space is the blank): a tab, a newline or U+3000 in front of a field name is swallowed into it together "
+              "with the preceding word — `a\\ntitle:b` (a query typed on two lines) is parsed as the single field `\"a\\ntitle\"`, in both parsers", site=prog.bodies[fnb[0]].span if fnb else "")
     both = bool(A) and bool(U)
     site_ = site(prog.bodies[A[0][0]], A[0][1]) if A else ""
     rep.check(not both, R, "separator parsers and word parsers agree on what white space is", "one predicate (%s)" % ("char::is_whitespace" if U else "ASCII"),
